@@ -242,7 +242,7 @@ fn c10_indexed_map_two_inserts_keep_bijection() {
     kani::cover!(true, "end of harness reachable");
 }
 
-//@ id=C10 tier=thorough timeout=3600 bounds="empty indexed map (both tables capacity 0 -> 64); 1..=3 (symbolic) inserts of (k, v) with k, v from {0,64,1,65,128} (colliding home slots in both tables, 0 = default key); symbolic query key and value on the final state of every prefix" desc="IndexedMapImpl::insert keeps a one-to-one mapping: an existing alias moves to the new id (the old id loses it), an id's previous alias stops resolving, both at once; lookups in both directions equal a reference bijection, nothing is stored twice, both tables have the reference's size, the directions are mutual inverses" kernel="IndexedMapImpl::insert,IndexedMapImpl::key,IndexedMapImpl::value,MapImpl::insert,MapImpl::remove,MapImpl::value" args="--no-assertion-reach-checks"
+//@ id=C10 tier=quick timeout=3600 bounds="empty indexed map (both tables capacity 0 -> 64); 1..=3 (symbolic) inserts of (k, v) with k, v from {0,64,1,65,128} (colliding home slots in both tables, 0 = default key); symbolic query key and value on the final state of every prefix" desc="IndexedMapImpl::insert keeps a one-to-one mapping: an existing alias moves to the new id (the old id loses it), an id's previous alias stops resolving, both at once; lookups in both directions equal a reference bijection, nothing is stored twice, both tables have the reference's size, the directions are mutual inverses" kernel="IndexedMapImpl::insert,IndexedMapImpl::key,IndexedMapImpl::value,MapImpl::insert,MapImpl::remove,MapImpl::value" args="--no-assertion-reach-checks"
 #[kani::proof]
 #[kani::stub(std::fmt::format, crate::verif_support::fmt_stub)]
 #[kani::stub(crate::DbError::new, crate::verif_support::dberror_new_stub)]
